@@ -150,6 +150,10 @@ pub struct ClientModel {
     /// (serial) how many times the implementation has closed the port so far: lets the model follow the
     /// implementation where the properties leave a choice (a frame with a bad CRC: end the session or skip it)
     pub impl_port_closes: Option<fn() -> usize>,
+    /// (serial) write calls of the implementation not yet attributed to a frame, as (instant, bytes). When set,
+    /// the model takes the instant of transmission of a frame from here instead of predicting the inter-frame
+    /// silence: C12 counts a time-out "since transmission", no property says how long the line is kept silent
+    pub observed_writes: Option<VecDeque<(u64, usize)>>,
     pub bad_crc_frames_skipped: u64,
 }
 
@@ -181,6 +185,7 @@ impl ClientModel {
             connected_once: false,
             order_dependent: None,
             impl_port_closes: None,
+            observed_writes: None,
             bad_crc_frames_skipped: 0,
         };
         m.emit(MState::Disabled);
@@ -212,6 +217,29 @@ impl ClientModel {
     pub fn queued(&self) -> usize {
         self.queue.len()
     }
+    /// instant at which the implementation finished writing the next `len` bytes, if it has
+    fn observed_write_time(&self, len: usize) -> Option<u64> {
+        let obs = self.observed_writes.as_ref()?;
+        let mut n = 0usize;
+        for (t, k) in obs {
+            n += *k;
+            if n >= len {
+                return Some(*t);
+            }
+        }
+        None
+    }
+    fn consume_observed(&mut self, len: usize) {
+        if let Some(obs) = self.observed_writes.as_mut() {
+            let mut n = 0usize;
+            while n < len {
+                match obs.pop_front() {
+                    Some((_, k)) => n += k,
+                    None => break,
+                }
+            }
+        }
+    }
     fn command_waiting(&self) -> bool {
         !self.queue.is_empty() || self.handles_dropped
     }
@@ -236,6 +264,12 @@ impl ClientModel {
         let mut upd = |x: u64| t = Some(t.map_or(x, |y: u64| y.min(x)));
         if let Some(o) = &self.outstanding {
             match o.write_at {
+                Some(_) if self.observed_writes.is_some() => {
+                    // (not written yet by the implementation: no event of the model's own)
+                    if let Some(t) = self.observed_write_time(o.frame.len()) {
+                        upd(t.max(self.now));
+                    }
+                }
                 Some(w) => upd(w),
                 // (a deadline at the end of time is no event)
                 None if o.deadline == u64::MAX => {}
@@ -501,7 +535,8 @@ impl ClientModel {
     fn fire(&mut self) {
         if let Some(o) = self.outstanding.clone() {
             if let Some(w) = o.write_at {
-                if w <= self.now {
+                let due = if self.observed_writes.is_some() { self.observed_write_time(o.frame.len()).map(|t| t <= self.now).unwrap_or(false) } else { w <= self.now };
+                if due {
                     self.do_write(o);
                     return;
                 }
@@ -694,9 +729,17 @@ impl ClientModel {
             Transport::Tcp => frame::mbap_frame(tx, spec.unit, &p),
             Transport::Rtu => frame::rtu_frame(spec.unit, &p),
         };
-        let write_at = match (self.transport, self.last_write) {
-            (Transport::Rtu, Some(l)) if l + self.t35 > self.now => Some(l + self.t35),
-            _ => None,
+        let write_at = if self.observed_writes.is_some() {
+            match self.observed_write_time(frame.len()) {
+                Some(t) if t <= self.now => None,
+                Some(t) => Some(t),
+                None => Some(u64::MAX),
+            }
+        } else {
+            match (self.transport, self.last_write) {
+                (Transport::Rtu, Some(l)) if l + self.t35 > self.now => Some(l + self.t35),
+                _ => None,
+            }
         };
         let o = Outstanding {
             deadline: self.now.saturating_add(spec.timeout),
@@ -715,6 +758,7 @@ impl ClientModel {
     fn do_write(&mut self, mut o: Outstanding) {
         o.write_at = None;
         self.last_write = Some(self.now);
+        self.consume_observed(o.frame.len());
         if let Some(kind) = self.write_error.take() {
             self.outstanding = None;
             self.effects.push(Effect::Complete {
